@@ -24,7 +24,7 @@ W = dict(case_twin=0.07, dual_fwd=0.25, ref=0.45, fwd=0.45, nick=0.5, dotted=0.3
 
 
 DIRECTED = [S.stream_dual_forward_underfilled, S.stream_dual_forward_underfilled, S.stream_hidden_table_nicks, S.stream_late_forward_reference, S.stream_late_forward_reference, S.stream_first_statement_names, S.stream_stale_slot, S.stream_shared_nick_forward, S.stream_shared_nick_forward, S.stream_idle_middle, S.stream_once_cluster,
-            S.stream_randref_nicks, S.stream_nick_spelled_like_table]
+            S.stream_randref_nicks, S.stream_nick_spelled_like_table, S.stream_captured_slot, S.stream_captured_slot]
 
 
 def gen_case(rng):
